@@ -12,11 +12,11 @@ import icontract
 
 from vmon import gen, harness, ir, ref, render
 from vmon.contracts import MonitorViolation
-from vmon.libutil import load_definition, monitored
+from vmon.libutil import lib_warnings, load_definition, monitored
 
 LEVEL = "exploration"
 SHARDS = {"quick": 16, "thorough": 16}
-MUST = ["directed.empty_last_field", "directed.dataset_parse_bad_pkts", "offers.show_progress", "offers.file_object", "lockstep.rounds", "stream.clean_clean_bad_clean", "yielded.clean", "yielded.flagged", "withheld.bad", "model.exact", "model.under", "model.over", "model.negative",
+MUST = ["directed.empty_last_field", "directed.dataset_parse_bad_pkts", "directed.truthvalue_option", "directed.warnings_as_errors", "offers.show_progress", "offers.file_object", "lockstep.rounds", "stream.clean_clean_bad_clean", "yielded.clean", "yielded.flagged", "withheld.bad", "model.exact", "model.under", "model.over", "model.negative",
         "reads.logged", "reads.negative_width", "reads.past_end", "repeated.streams", "reparse.same_raw_object"]
 RULE = ("case = (generated document, packet whose length is what the definition consumes -9..+9 bytes, or whose "
         "length-controlling fields make a computed size 0 or negative, parse_bad_pkts in {True, False}); each packet is "
@@ -372,6 +372,38 @@ def directed(ctx):
                 if got != want:
                     ctx.violation(f"dataset/parse_bad_pkts={pbp}/rows", f"create_dataset over three files with parse_bad_pkts={pbp}: N column {got} / {st.exc!r}, expected {want}",
                                   {"parse_bad_pkts": pbp, "got": got})
+                nwarn = sum("Number of bits parsed" in str(w.message) for w in lib_warnings(st))
+                if nwarn != 2:
+                    ctx.violation(f"dataset/mismatch-warnings/{min(nwarn, 3)}", f"create_dataset over three files holding two length-mismatched packets (parse_bad_pkts={pbp}): "
+                                  f"{nwarn} mismatch warnings reached the caller, expected 2", {"parse_bad_pkts": pbp, "warnings": [str(w.message)[:100] for w in st.warnings][:5]})
+            # ---- the option is a truth value: 0 / numpy.bool_(False) withhold like False, 1 / numpy.bool_(True) deliver like True
+            import numpy as np
+            stream = good(1) + longer(2) + good(3)
+            for pbp, want in ((0, [1, 3]), (np.bool_(False), [1, 3]), (np.array([1]) > 2, [1, 3]), (1, [1, 2, 3]), (np.bool_(True), [1, 2, 3])):
+                pbp = pbp[0] if isinstance(pbp, np.ndarray) else pbp
+                st = monitored(lambda: [int(p_["N"]) for p_ in defn.packet_generator(stream, parse_bad_pkts=pbp)])
+                ctx.count("evaluations")
+                ctx.count("directed.truthvalue_option")
+                if st.value != want:
+                    ctx.violation(f"option-truth-value/{type(pbp).__name__}/{bool(pbp)}", f"parse_bad_pkts={pbp!r} ({type(pbp).__name__}): yielded N={st.value} / {st.exc!r}, expected {want}", {"parse_bad_pkts": repr(pbp)})
+            # ---- a caller that turns warnings into errors gets the mismatch warning AS an exception, at the mismatched packet
+            import warnings as W
+            for pbp in (True, False):
+                seen, exc = [], None
+                with W.catch_warnings():
+                    W.simplefilter("error")
+                    try:
+                        for p_ in defn.packet_generator(stream, parse_bad_pkts=pbp):
+                            seen.append(int(p_["N"]))
+                    except Warning as e:
+                        exc = e
+                    except Exception as e:  # noqa: BLE001
+                        exc = e
+                ctx.count("evaluations")
+                ctx.count("directed.warnings_as_errors")
+                if seen != [1] or not isinstance(exc, Warning) or "Number of bits parsed" not in str(exc):
+                    ctx.violation(f"warnings-as-errors/{'none' if exc is None else type(exc).__name__}", f"under simplefilter('error') the stream clean, mismatched, clean (parse_bad_pkts={pbp}) gave N={seen} and "
+                                  f"{exc!r}; expected [1] and then the mismatch warning raised as an exception", {"parse_bad_pkts": pbp, "seen": seen})
         finally:
             import shutil
             shutil.rmtree(d, ignore_errors=True)
